@@ -325,8 +325,12 @@ theorem findCache_filter_self (x : Hash) (c : List (Hash × Hdr)) : findCache x 
   | cons e r ih =>
     obtain ⟨q, hd⟩ := e
     by_cases h : q = x
-    · simp [List.filter, h, ih]
-    · simp [List.filter, h, findCache, ih]
+    · have e : List.filter (fun e => decide (e.1 ≠ x)) ((q, hd) :: r) = List.filter (fun e => decide (e.1 ≠ x)) r :=
+        List.filter_cons_of_neg (by simp [h])
+      rw [e]; exact ih
+    · have e : List.filter (fun e => decide (e.1 ≠ x)) ((q, hd) :: r) = (q, hd) :: List.filter (fun e => decide (e.1 ≠ x)) r :=
+        List.filter_cons_of_pos (by simpa using h)
+      rw [e]; simp only [findCache, h, if_false]; exact ih
 
 /-- what the queries see after `b` was added -/
 theorem addedLedger_reads (P : Prims) (b : Block) (l : Ledger) (ws : Hash) (st : St) :
